@@ -135,7 +135,10 @@ class Driver:
                 pending.add(fu_)
             # regression scenarios of repaired / recorded findings run first, every time
             import glob
-            for k, path in enumerate(sorted(glob.glob(os.path.join(E.VERIF_DIR, 'findings', chk.id + '-*.json')))):
+            # ... and so do the directed scenarios: minimal scenarios that once exposed an independently seeded change
+            # (they keep the quick tier's reach independent of where the PRNG stream happens to go)
+            for k, path in enumerate(sorted(glob.glob(os.path.join(E.VERIF_DIR, 'findings', chk.id + '-*.json')))
+                                     + sorted(glob.glob(os.path.join(E.VERIF_DIR, 'directed', chk.id + '-*.json')))):
                 with open(path) as f:
                     rsc = json.load(f)['scenario']
                 submit('sc', -(k + 1), rsc)
